@@ -313,23 +313,24 @@ def inline_body(d, helpers, raw_by_path, depth=0, stack=()):
                     # jump threading: a return whose Result / Option variant is known goes straight to the matching arm of the
                     # caller's `?` / match on the call result (otherwise every path-insensitive rule sees the helper's error
                     # return flow into the caller's success continuation)
-                    if thread is not None:
-                        for hi, hb_blk in enumerate(hd['blocks']):
-                            if hb_blk['term']['k'] != 'return':
-                                continue
-                            preds = [(pi, pb) for pi, pb in enumerate(hd['blocks']) if hi in _succs(pb['term']) and not pb.get('cleanup')]
-                            tail_only = all(x.get('k') in ('live', 'dead', 'nop') for x in hb_blk['stmts'])
-                            known_all = variants.get(('in', hi))
-                            if known_all in ('Ok', 'Err', 'Some', 'None'):
+                    for hi, hb_blk in enumerate(hd['blocks']):
+                        if hb_blk['term']['k'] != 'return':
+                            continue
+                        preds = [(pi, pb) for pi, pb in enumerate(hd['blocks']) if hi in _succs(pb['term']) and not pb.get('cleanup')]
+                        tail_only = all(x.get('k') in ('live', 'dead', 'nop') for x in hb_blk['stmts'])
+                        known_all = variants.get(('in', hi))
+                        if known_all in ('Ok', 'Err', 'Some', 'None'):
+                            if thread is not None:
                                 _thread(new[hi], thread, known_all, blocks, new, extra, bo)
-                            elif tail_only and preds and all(variants.get(('out', pi)) in ('Ok', 'Err', 'Some', 'None') for pi, _ in preds):
-                                # split the shared return block per predecessor
-                                for pi, pb in preds:
-                                    v = variants[('out', pi)]
-                                    clone = copy.deepcopy(new[hi])
-                                    cid = bo + len(new) + len(extra)
-                                    extra.append(clone)
-                                    _retarget(new[pi]['term'], bo + hi, cid)
+                        elif tail_only and len(preds) > 1 and all(variants.get(('out', pi)) in ('Ok', 'Err', 'Some', 'None') for pi, _ in preds):
+                            # split the shared return block per predecessor: each copy then has one reaching definition of the result
+                            for pi, pb in preds:
+                                v = variants[('out', pi)]
+                                clone = copy.deepcopy(new[hi])
+                                cid = bo + len(new) + len(extra)
+                                extra.append(clone)
+                                _retarget(new[pi]['term'], bo + hi, cid)
+                                if thread is not None:
                                     _thread(clone, thread, v, blocks, new, extra, bo)
                     new.extend(extra)
                     blk = dict(blocks[i])
@@ -347,6 +348,114 @@ def inline_body(d, helpers, raw_by_path, depth=0, stack=()):
     d['blocks'] = blocks
     d['inlined'] = inlined
     return d
+
+
+def _same_module_scope(helper_file, caller_file):
+    """the helper lives in the caller's source file, or in the mod.rs / lib.rs of a directory the caller's file is under (a private
+    function of a parent module used by one function of a child module)"""
+    if helper_file == caller_file:
+        return True
+    import os
+    hf, cf = helper_file or '', caller_file or ''
+    if os.path.basename(hf) in ('mod.rs', 'lib.rs') and cf.startswith(os.path.dirname(hf) + '/'):
+        return True
+    return False
+
+
+def thread_flags(d):
+    """`let mut done = false; while !done { ..; done = <test>; }` is the loop `loop { ..; if <test> { break } }` written with a flag.
+    Every jump into a block that only switches on a boolean local, coming from a block whose last statement-level assignment to
+    that local is a constant or a comparison, is redirected: constants go straight to the target, comparisons get their own switch
+    in the assigning block.  Returns a new body dict (or d itself when nothing applies)."""
+    blocks = d['blocks']
+    n = len(blocks)
+    heads = {}
+    for h, bl in enumerate(blocks):
+        t = bl['term']
+        if bl.get('cleanup') or t['k'] != 'switch' or t.get('op_ty') != 'bool':
+            continue
+        pl = (t.get('op') or {}).get('place')
+        if not pl or pl.get('p'):
+            continue
+        # the operand is computed in this block from one local through copies / Not
+        cur, neg, ok = pl['l'], False, True
+        other = False
+        for s in reversed(bl['stmts']):
+            if s.get('k') != 'assign':
+                continue
+            if s['place'].get('p') or s['place']['l'] != cur:
+                other = True
+                continue
+            rv = s['rv']
+            if rv['k'] == 'use' and (rv['op'].get('place') or {}).get('l') is not None and not rv['op']['place'].get('p'):
+                cur = rv['op']['place']['l']
+            elif rv['k'] == 'un' and rv.get('op') == 'Not' and (rv['a'].get('place') or {}).get('l') is not None and not rv['a']['place'].get('p'):
+                cur = rv['a']['place']['l']
+                neg = not neg
+            else:
+                ok = False
+                break
+        if not ok or other:
+            continue
+        arms = {a[0]: a[1] for a in t['arms']}
+        t_false = arms.get(0, t['otherwise'])
+        t_true = t['otherwise'] if 0 in arms else arms.get(1, t['otherwise'])
+        if neg:
+            t_false, t_true = t_true, t_false
+        heads[h] = (cur, t_false, t_true)
+    if not heads:
+        return d
+    # trivial forwarders into a head (loop headers)
+    fwd = {}
+    for b, bl in enumerate(blocks):
+        if bl['term']['k'] == 'goto' and not any(s.get('k') == 'assign' for s in bl['stmts']) and not bl.get('cleanup'):
+            fwd[b] = bl['term']['t']
+
+    def resolve(t):
+        seen = 0
+        while t in fwd and t not in heads and seen < 4:
+            t = fwd[t]
+            seen += 1
+        return t if t in heads else None
+    new = None
+    for b, bl in enumerate(blocks):
+        t = bl['term']
+        if t['k'] != 'goto' or bl.get('cleanup'):
+            continue
+        h = resolve(t['t'])
+        if h is None or h == b:
+            continue
+        f, t_false, t_true = heads[h]
+        last = None
+        for s in reversed(bl['stmts']):
+            if s.get('k') == 'assign' and s['place']['l'] == f:
+                last = s
+                break
+        if last is None or last['place'].get('p'):
+            continue
+        rv = last['rv']
+        nt = None
+        if rv['k'] == 'use' and rv['op'].get('k') == 'const' and rv['op'].get('ty') == 'bool':
+            val = rv['op'].get('val')
+            if val is None:
+                val = {'const true': 1, 'const false': 0, 'true': 1, 'false': 0}.get(str(rv['op'].get('s', '')).lower())
+            if val is None:
+                continue
+            nt = {'k': 'goto', 't': t_true if val else t_false, 'line': t.get('line'), 'glue': 'flag'}
+        elif rv['k'] == 'bin' and rv.get('op') in ('Eq', 'Ne', 'Lt', 'Le', 'Gt', 'Ge'):
+            nt = {'k': 'switch', 'op': {'k': 'copy', 'place': {'l': f, 's': '_%d' % f, 'ty': 'bool'}}, 'op_ty': 'bool', 'arms': [[0, t_false]], 'otherwise': t_true,
+                  'line': last.get('line'), 'glue': 'flag'}
+        if nt is None:
+            continue
+        if new is None:
+            new = [dict(x) for x in blocks]
+        new[b]['term'] = nt
+    if new is None:
+        return d
+    d2 = dict(d)
+    d2['blocks'] = new
+    d2['flag_threaded'] = True
+    return d2
 
 
 class Normal:
@@ -378,7 +487,7 @@ class Normal:
             if len(cs) != 1:
                 continue
             c = raw_by_path.get(next(iter(cs)))
-            if c is None or (same_file and c.file != hb.file):
+            if c is None or (same_file and not _same_module_scope(hb.file, c.file)):
                 continue
             self.absorbed[p] = hb
         self.host = {}
@@ -387,11 +496,12 @@ class Normal:
         for b in crate.raw_bodies:
             if b.path in self.absorbed:
                 continue
-            if b.in_test or not self.absorbed:
+            if b.in_test:
                 nb = b
             else:
-                d2 = inline_body(b.d, self.absorbed, raw_by_path)
-                nb = b if d2 is b.d else Body(d2, crate)
+                d2 = inline_body(b.d, self.absorbed, raw_by_path) if self.absorbed else b.d
+                d3 = thread_flags(d2)
+                nb = b if d3 is b.d else Body(d3, crate)
             self.bodies.append(nb)
             self._by_path.setdefault(nb.path, nb)
             for p in nb.d.get('inlined') or []:
